@@ -77,9 +77,11 @@ func NewCrdIPAM(fipClient crd_clientset.Interface, informer crdInformer.Floating
 // AllocateSpecificIP allocate pod a specific IP.
 func (ci *crdIpam) AllocateSpecificIP(key string, ip net.IP, attr Attr) error {
 	ipStr := ip.String()
-	ci.cacheLock.RLock()
+	// like the other allocators, hold the lock from the lookup to the cache update: a configuration reload in
+	// between would otherwise leave an ip in the cache which is neither configured nor stored
+	ci.cacheLock.Lock()
+	defer ci.cacheLock.Unlock()
 	spec, find := ci.unallocatedFIPs[ipStr]
-	ci.cacheLock.RUnlock()
 	if !find {
 		return fmt.Errorf("failed to find floating ip by %s in cache", ipStr)
 	}
@@ -88,9 +90,7 @@ func (ci *crdIpam) AllocateSpecificIP(key string, ip net.IP, attr Attr) error {
 		glog.Errorf("failed to create floatingIP %s: %v", ipStr, err)
 		return err
 	}
-	ci.cacheLock.Lock()
 	ci.syncCacheAfterCreate(allocated)
-	ci.cacheLock.Unlock()
 	return nil
 }
 
